@@ -68,7 +68,8 @@ def statuses(doc):
 class Listener:
     def __init__(self, c, r, s, flags):
         self.c = c
-        self.p = c.spawn("tail", [common.MONORAIL, "log", "tail"] + flags, r.dir, s.env())
+        argv_, cwd_ = r.cmdline("log", "tail", *flags)
+        self.p = c.spawn("tail", argv_, cwd_, s.env())
         ok = c.wait(lambda: port_listening(r.log_port) or self.p.done(), 10)
         if not ok or self.p.done():
             raise common.EngineError("log tail did not start: %s %s" % (self.p.code, self.p.err[:200]))
@@ -99,6 +100,8 @@ def c15_run(desc):
     try:
         T15 = TARGETS15_LONG if desc.get("names") == "long" else TARGETS15
         r = sc.Repo(s, "r", T15, commands={t["path"]: {"build": "x"} for t in T15}, init_git=False)
+        if desc.get("foreign"):
+            r.foreign_cwd()   # listener and run are both invoked as -f <abs config> from an unrelated directory
         c = ctlmod.Controller(s)
         try:
             lis = None
@@ -112,7 +115,8 @@ def c15_run(desc):
                 # the listener is suspended: the run's connection is accepted by the kernel but the
                 # filter line never comes; then the listener is killed while the run is waiting for it
                 os.kill(lis.p.p.pid, signal.SIGSTOP)
-            p = c.spawn("run", [common.MONORAIL, "run", "-c", "build", "-t"] + [t["path"] for t in T15] + ["--deps"], r.dir, s.env(c.env()))
+            argv_, cwd_ = r.cmdline("run", "-c", "build", "-t", *([t["path"] for t in T15] + ["--deps"]))
+            p = c.spawn("run", argv_, cwd_, s.env(c.env()))
             killed = fate == "before_run"
             if lis is not None and fate == "during_handshake":
                 c.wait(lambda: len(c.waiting()) > 0 or p.done(), 1.0)   # nobody arrives while the handshake hangs
@@ -250,6 +254,12 @@ def c15_scenarios(tier):
     # clean SIGTERM variant
     for fate in FATES[1:]:
         out.append({"listener": ["--stdout", "--stderr"], "fate": fate, "term": True})
+    # listener and run invoked as -f <abs config> from an unrelated directory
+    out.append({"listener": None, "fate": "never", "foreign": True})
+    out.append({"listener": None, "fate": "mid_output", "foreign": True})
+    for cfg in (["--stdout", "--stderr"], ["--stderr", "-t", "a"]):
+        for f in ("never", "mid_output"):
+            out.append({"listener": cfg, "fate": f, "foreign": True})
     # a member of the first group fails while its sibling is still running and has output pending
     out.append({"listener": None, "fate": "never", "pattern": "sibling-fails"})
     for cfg in (["--stdout", "--stderr"], ["--stderr"], ["--stdout", "-t", "a"]):
@@ -314,8 +324,10 @@ def c20_run(desc):
         cmds = ["build", "test"]
         T20 = [{"path": LONG_A}, {"path": LONG_B}] if desc.get("names") == "long" else \
             [{"path": ".ci"}, {"path": "ci"}] if desc.get("names") == "dot" else \
-            [{"path": "my target"}, {"path": "x."}] if desc.get("names") == "odd" else TARGETS20
+            [{"path": "my,target"}, {"path": "x."}] if desc.get("names") == "odd" else TARGETS20
         r = sc.Repo(s, "r", T20, commands={t["path"]: {c: "x" for c in cmds} for t in T20}, init_git=False)
+        if desc.get("foreign"):
+            r.foreign_cwd()
         c = ctlmod.Controller(s)
         try:
             flags = list(desc["streams"])
@@ -353,7 +365,8 @@ def c20_run(desc):
                 c.auto_points = on_hit
                 c.tick_hook = release_rule
             env = s.env(c.env(points=points))
-            p = c.spawn("run", [common.MONORAIL, "run", "-c"] + cmds + ["-t"] + [t["path"] for t in T20] + ["--deps"], r.dir, env)
+            argv_, cwd_ = r.cmdline("run", "-c", *(cmds + ["-t"] + [t["path"] for t in T20] + ["--deps"]))
+            p = c.spawn("run", argv_, cwd_, env)
             viol = []
             nbursts = 2 if desc.get("short") else 3
             for cmd in cmds:
@@ -489,10 +502,13 @@ def c20_scenarios(tier):
     for s_, t, c in [(["--stdout", "--stderr"], [], []), (["--stdout"], [LONG_A], []), (["--stderr"], [LONG_B], ["build"])]:
         out.append({"streams": s_, "targets": t, "commands": c, "short": True, "names": "long"})
     # target names a filter value could be "normalised" into something else: a leading dot next to the
-    # same name without it, a space, a trailing dot
-    for names, tsubs in (("dot", [[".ci"], ["ci"], []]), ("odd", [["my target"], ["x."]])):
+    # same name without it, a comma, a trailing dot (not a space: -t takes a space-delimited list)
+    for names, tsubs in (("dot", [[".ci"], ["ci"], []]), ("odd", [["my,target"], ["x."]])):
         for tf in tsubs:
             out.append({"streams": ["--stdout", "--stderr"], "targets": tf, "commands": [], "short": True, "names": names})
+    # listener and run invoked as -f <abs config> from an unrelated directory
+    for s_, t, c in [(["--stdout", "--stderr"], [], []), (["--stdout"], ["a"], ["build"])]:
+        out.append({"streams": s_, "targets": t, "commands": c, "short": True, "foreign": True})
     # a failing member: its sibling is cancelled while it has output that no periodic flush has handled
     for s_, t, c in [(["--stdout", "--stderr"], [], []), (["--stderr"], [], ["test"]), (["--stdout"], [B20], [])]:
         out.append({"streams": s_, "targets": t, "commands": c, "short": True, "sibling_fails": True})
@@ -522,7 +538,7 @@ def run(prop, tier):
         errs = [r["engine_error"] for r in results if "engine_error" in r]
         if errs:
             raise common.EngineError("; ".join(errs[:2]))
-        bases = {(d["fate"], d.get("pattern"), d.get("names")): r for d, r in zip(descs, results) if d["listener"] is None}
+        bases = {(d["fate"], d.get("pattern"), d.get("names"), bool(d.get("foreign"))): r for d, r in zip(descs, results) if d["listener"] is None}
         for f, b in bases.items():
             if f[1] == "sibling-fails":
                 if b.get("exit") != 1 or b.get("failed") is not True:
@@ -538,7 +554,7 @@ def run(prop, tier):
                 continue
             if r.get("listener_saw"):
                 nontrivial += 1
-            for sig, detail in c15_compare(d, r, bases[(d["fate"], d.get("pattern"), d.get("names"))]):
+            for sig, detail in c15_compare(d, r, bases[(d["fate"], d.get("pattern"), d.get("names"), bool(d.get("foreign")))]):
                 viol.append({"sig": sig, "detail": detail, "rank": FATES.index(d["fate"]) * 10 + len(d["listener"]), "case": {"c15": d}})
             if len(samples) < 5:
                 samples.append({"listener": d["listener"], "fate": d["fate"], "exit": r.get("exit"), "listener_bytes": r.get("listener_saw")})
@@ -578,7 +594,7 @@ def replay(prop, path):
     if "c15" in case:
         d = case["c15"]
         # the burst pattern depends on the fate: the baseline is replayed with the same pattern
-        base = c15_run({"listener": None, "fate": d["fate"], "pattern": d.get("pattern"), "names": d.get("names")})
+        base = c15_run({"listener": None, "fate": d["fate"], "pattern": d.get("pattern"), "names": d.get("names"), "foreign": d.get("foreign")})
         obs = c15_run(d)
         if "engine_error" in obs or "engine_error" in base:
             print("ENGINE:", obs.get("engine_error") or base.get("engine_error"))
